@@ -13,15 +13,16 @@ def run(ctx):
         "hand-written interleaving model of ds/reactive variable_impl.go, set_impl.go, event_impl.go, utils.go (Model.v), tied to the code by the correspondence check only",
         "atomicity of the model's steps: each step is a lock acquisition or a run of statements under one mutex without blocking; the thread-safe ds.List operations PushBack/Values/Remove are atomic",
         "finite sets of elements are modelled as bit masks (element i = bit i); Variable values as N",
+        "storm runs (tight writers against subscribe/unsubscribe loops) are judged by the Go-side oracle only",
         "free-running runs: the global change order is recorded inside the compute function (Variable, under the value mutex) / taken from a permanent first subscriber and cross-checked with the writers' return values (Set)",
     ])
     if thorough:
         for k in range(5):
             ctx.seed += 1000
-            ctx.corr(hx, ["all", "--nseq", "600", "--nfree", "1500", "--len", "36"], cases_name="cases%d.v" % k)
+            ctx.corr(hx, ["all", "--nseq", "600", "--nfree", "1500", "--nstorm", "30", "--len", "36"], cases_name="cases%d.v" % k)
         ctx.seed -= 5000
     else:
-        ctx.corr(hx, ["all", "--nseq", "300", "--nfree", "400"])
+        ctx.corr(hx, ["all", "--nseq", "300", "--nfree", "400", "--nstorm", "8"])
     ctx.assumptions += [
         "guard: a callback does not synchronously call its own unsubscribe, nor a write method of the object it is subscribed to (self-deadlock on the execution / update-order mutex by construction; OnUpdateOnce uses `go unsubscribe()` for that reason)",
         "an unsubscribe closure is only called after the OnUpdate call that produced it has returned",
